@@ -35,6 +35,10 @@ def Outcome.isPanic {α : Type} : Outcome α → Bool
   | .panic _ => true
   | _ => false
 
+def Outcome.isError {α : Type} : Outcome α → Bool
+  | .error _ => true
+  | _ => false
+
 end DT
 
 /-- Kinds of opaque simple values. -/
